@@ -25,6 +25,7 @@ PANIC   == Ret("panic", 0)
 OK      == Ret("ok", 0)
 INVALID == Ret("invalid", 0)
 NOPATH  == Ret("nopath", 0)
+MISUSE  == Ret("misuse", 0)
 IsPanic(r) == r.kind = "panic"
 
 
@@ -169,11 +170,15 @@ ApplyAt(S, T, v, op) ==
          [] op.op = "LAppendMutable" ->
               IF ReadOnly(v, fd, op) \/ fd.kind # "message" THEN R(v, PANIC)
               ELSE R(SetF(v, fd, Append(ListOf(v, fd), EmptyMsg)), ViewOf(TRUE, 0))
+         \* Truncate(n) with n above the length is misuse whose outcome depends on the spare capacity
+         \* of the Go slice behind the list in every implementation (a reslice within capacity
+         \* succeeds and brings back a slot): it is outside the model (MISUSE: the operation is not
+         \* enabled) unless the list is read-only, where it panics everywhere
          [] op.op = "LTruncate" ->
               LET l == ListOf(v, fd)
-              IN IF op.i \in 0..Len(l) /\ ~ReadOnly(v, fd, op)
-                 THEN R(PutList(v, fd, SubSeq(l, 1, op.i)), OK)
-                 ELSE R(v, PANIC)
+              IN IF ReadOnly(v, fd, op) THEN R(v, PANIC)
+                 ELSE IF op.i \in 0..Len(l) THEN R(PutList(v, fd, SubSeq(l, 1, op.i)), OK)
+                 ELSE R(v, MISUSE)
          [] op.op = "LNewElement" -> R(v, ElemZero(fd.kind))
          \* ONE list view (obtained with Mutable) kept across three calls: Append(x) [AppendMutable for
          \* messages]; Truncate(back to the old length); Append(x) [Append(NewElement())].  Neither
@@ -181,6 +186,19 @@ ApplyAt(S, T, v, op) ==
          [] op.op = "LRetained" ->
               IF fd.card # "rep" THEN R(v, PANIC)
               ELSE R(SetF(v, fd, Append(ListOf(v, fd), IF fd.kind = "message" THEN EmptyMsg ELSE op.x)), OK)
+         \* a list or map view obtained with Mutable is still valid after the field is cleared behind
+         \* its back (what it then shows differs between the reference implementations -- a detached
+         \* copy or the live empty field -- and is not observed)
+         [] op.op = "ViewClear" ->
+              IF fd.card \in {"rep", "map"} THEN R(ClearF(v, fd), Bool(TRUE)) ELSE R(v, PANIC)
+         \* Set(fd, w) with w = what Get(fd) answers on an EMPTY message of this type: a read-only
+         \* empty list / map / message.  Storing it is refused everywhere and changes nothing.
+         [] op.op = "SetInvalid" ->
+              IF fd.card \in {"rep", "map"} \/ fd.kind = "message" THEN R(v, PANIC) ELSE R(v, Ret("unknown-op", 0))
+         \* e = AppendMutable() on a message list, e.SetUnknown(u), Truncate(back to the old length):
+         \* the message e that was dropped from the list is still the caller's, with its content
+         [] op.op = "LElemKept" ->
+              IF fd.card = "rep" /\ fd.kind = "message" THEN R(v, Ret("bytes", op.u)) ELSE R(v, PANIC)
          \* ---- Map ----
          [] op.op = "MLen" -> R(v, IntR(Cardinality(DOMAIN MapOf(v, fd))))
          [] op.op = "MIsValid" -> R(v, Bool(~ReadOnly(v, fd, op)))
@@ -219,7 +237,7 @@ Apply(S, T, root, op) ==
     ELSE LET at == AtPath(S, T, root, op.p)
          IN IF ~at.ok THEN [st |-> root, ret |-> NOPATH, enabled |-> FALSE]
             ELSE LET r == ApplyAt(S, at.T, at.v, op)
-                 IN [st |-> IF r.v = at.v THEN root ELSE PutPath(S, T, root, op.p, r.v), ret |-> r.ret, enabled |-> TRUE]
+                 IN [st |-> IF r.v = at.v THEN root ELSE PutPath(S, T, root, op.p, r.v), ret |-> r.ret, enabled |-> r.ret # MISUSE]
 
 IsRead(op) == op.op \in {"Has", "Get", "Getter", "NewField", "Which", "Range", "RangeFirst", "MRangeFirst", "GetUnknown", "IsValid", "LLen", "LIsValid", "LGet",
                          "LNewElement", "MLen", "MIsValid", "MHas", "MGet", "MRange", "MNewValue"}
